@@ -214,6 +214,9 @@ type world struct {
 type partRec struct {
 	Name, Prev, Hash, Renamed string
 	Beg, End, Size, Send      int64
+	// Hash0: what the part said when the request began, if the encoded header (what
+	// the receiver was told, now in Hash / Size) said something else
+	Hash0 string `json:",omitempty"`
 }
 
 type wRequest struct {
@@ -753,6 +756,13 @@ func (s *sender) transmit(p sts.Payload) (n int, err error) {
 				return 0, fmt.Errorf("bin failed with response code: 500")
 			}
 			parts := dec.GetParts()
+			for i, p := range parts {
+				if i < len(req.Parts) && req.Parts[i].Name == p.GetName() && req.Parts[i].Hash != p.GetFileHash() {
+					req.Parts[i].Hash0 = req.Parts[i].Hash
+					req.Parts[i].Hash = p.GetFileHash()
+					req.Parts[i].Size = p.GetFileSize()
+				}
+			}
 			gk.Stage.Prepare(parts)
 			gk.restamp()
 			index := 0
